@@ -17,7 +17,8 @@ from .. import attitude as A
 from .. import dcm2quat_model as MOD
 
 TOL = 1e-12
-VECS = [(1, 0, 0), (0, 1, 0), (0, 0, 1), (1, -2, 2), (-3, 1, 2)]
+# (all finite vectors: also the null vector and magnitudes whose squares overflow / underflow)
+VECS = [(1, 0, 0), (0, 1, 0), (0, 0, 1), (1, -2, 2), (-3, 1, 2), (0, 0, 0), (1e160, -2e160, 2e160), (3e-170, 1e-170, -2e-170)]
 
 
 def cfg(name):
@@ -104,7 +105,8 @@ def replay_pairs(recs):
                     t.fail("C01|%s|raises-%s" % (route, o[1]), {"p": p, "vec": vec, "err": o[2]})
                     continue
                 got, inverse = o[1]
-                d = maxdiff(got, wi if inverse else wv)
+                vmax = max(abs(float(c)) for c in vec)
+                d = maxdiff(got, wi if inverse else wv) / (vmax if vmax > 0 else 1.0)      # relative to the size of the vector
                 t.resid("rotate", d)
                 if not d <= 4 * TOL:
                     t.fail("C01|%s|rotated-vector-differs" % route,
